@@ -78,6 +78,7 @@ SearchBad(e) ==
   IN First(<<
        <<he.ev # "host" \/ he.h # e.h, "tooling:search-host-line">>,
        <<e.fpass = 0, "filter: the chosen entry does not pass the requested filter">>,
+       <<e.res < 0, "runnable: what was returned is not an entry of the list">>,
        <<e.res = 0 /\ Runs # {}, "found: a runnable entry exists but none was returned">>,
        <<e.res # 0 /\ e.res \notin Runs, "runnable: the chosen entry cannot run on the requested platform">>,
        <<e.res # 0 /\ e.res \in Runs /\ \E i \in Runs : Bt(L[i], L[e.res]), "best: a strictly better entry was passed over">>,
